@@ -23,6 +23,19 @@ Dev_PlainBackslashBeforeSpecial(P, got) ==
     /\ \E i \in 1..(Len(P) - 1) : P[i] = CH_BSL /\ NeedsGuard(P[i + 1])
     /\ got = ParseStr(NaivePlain(P))
 
+\* ---- recorded deviation: the escape character itself is escaped only if the configuration lists it --
+\* In a configuration whose additionally escaped characters do not include the escape character, a source
+\* backslash is written as it is: it then escapes whatever follows (also the closing quote).  The
+\* deviation is: such a configuration, a source containing the escape character, and the output being
+\* exactly the rendering that escapes everything else correctly.
+RenderNoEsc(K, p) ==
+    Concat([i \in 1..Len(p) |->
+        CASE p[i] = STAR -> K.wm [] p[i] = QM -> K.ws [] p[i] \in K.filt -> <<>>
+          [] p[i] \in Meta(K) -> <<K.esc, p[i]>> [] OTHER -> <<p[i]>>])
+EscDev(K, P, out, quoted) ==
+    /\ ~WellFormed(K) /\ K.esc # NONE /\ \E i \in 1..Len(P) : P[i] = K.esc
+    /\ out = IF quoted /\ K.quote # NONE THEN <<K.quote>> \o RenderNoEsc(K, P) \o <<K.quote>> ELSE RenderNoEsc(K, P)
+
 C(name) == [dev |-> FALSE, name |-> name]
 D(name) == [dev |-> TRUE, name |-> name]
 NoC == C("")
@@ -34,13 +47,18 @@ StrClauses(o) ==
             LET K == Configs[o.ks[j]]
                 r == o.conv[j]
             IN  IF ~Supported(K, P) THEN ~Rejected(r)
-                ELSE ~Ok(r) \/ DecodeBody(K, r.out) # FilterParts(K, P)
+                ELSE ~Ok(r) \/ (DecodeBody(K, r.out) # FilterParts(K, P) /\ ~EscDev(K, P, r.out, FALSE))
         ValBad(j) ==       \* TextQueryBackend.convert_value_str (quoted literal)
             LET K == Configs[o.ks[j]]
                 r == o.val[j]
             IN  IF ~Supported(K, P) THEN ~Rejected(r)
-                ELSE ~Ok(r) \/ DecodeLiteral(K, r.out) # FilterParts(K, P)
+                ELSE ~Ok(r) \/ (DecodeLiteral(K, r.out) # FilterParts(K, P) /\ ~EscDev(K, P, r.out, TRUE))
                      \/ (K.quote # NONE /\ ~(Len(r.out) >= 2 /\ r.out[1] = K.quote /\ r.out[Len(r.out)] = K.quote))
+        EscDevSeen ==
+            \E j \in 1..Len(o.ks) : LET K == Configs[o.ks[j]] IN
+                Supported(K, P) /\ Ok(o.conv[j]) /\ Ok(o.val[j]) /\
+                ((DecodeBody(K, o.conv[j].out) # FilterParts(K, P) /\ EscDev(K, P, o.conv[j].out, FALSE))
+                 \/ (DecodeLiteral(K, o.val[j].out) # FilterParts(K, P) /\ EscDev(K, P, o.val[j].out, TRUE)))
         Subjects == SeqsUpTo({o.subj[j] : j \in 1..Len(o.subj)}, 3)
         n == Len(P)
         SliceBad(j, a, b) ==
@@ -55,7 +73,8 @@ StrClauses(o) ==
       ELSE C("PlainRoundTrip"),
       IF \E j \in 1..Len(o.ks) : Crashed(o.conv[j]) \/ Crashed(o.val[j]) THEN C("NonSigmaException")
       ELSE IF \E j \in 1..Len(o.ks) : ConvBad(j) THEN C("TargetDecodes:convert")
-      ELSE IF \E j \in 1..Len(o.ks) : ValBad(j) THEN C("TargetDecodes:convert_value_str") ELSE NoC,
+      ELSE IF \E j \in 1..Len(o.ks) : ValBad(j) THEN C("TargetDecodes:convert_value_str")
+      ELSE IF EscDevSeen THEN D("Dev_EscapeCharNotEscaped") ELSE NoC,
       IF ~Ok(o.re_matches) THEN C("RegexSameLanguage:exception")
       ELSE IF {o.re_matches.out[j] : j \in 1..Len(o.re_matches.out)} # {s \in Subjects : WildMatch(P, s)}
            THEN C("RegexSameLanguage") ELSE NoC,
